@@ -11,7 +11,15 @@ def run(case):
     """case: list of ops on ONE instance:
        ('steps', n) run-steps | ('step',) run-step | ('stream_all',) | ('stream_open', k) read k chunks and keep it open
        | ('stream_close',) close the open stream | ('stream_finish',) read the open stream to the end | ('bad_steps',) run-steps that fails inside"""
-    app = make_app()
+    import tempfile, shutil
+    from BPTK_Py.externalstateadapter import FileAdapter
+    tmpd = tempfile.mkdtemp(prefix="c18_")
+    try:
+        return _run(case, make_app(adapter=FileAdapter(False, tmpd)))
+    finally:
+        shutil.rmtree(tmpd, ignore_errors=True)
+
+def _run(case, app):
     client = app.test_client()
     u = start(client); begin(client, u)
     inst = app._instance_manager._instances[u]["instance"]
@@ -59,6 +67,40 @@ def run(case):
                 return "op %d %r: lock not released after a failing run-steps" % (n, op)
             if locked_before and not inst.is_locked():
                 return "op %d %r: a refused request released the lock held by the request in progress" % (n, op)
+        elif op[0] == "save":
+            # another client externalises the whole server state: this must not change any lock or clock
+            r = client.get("/save-state")
+            if inst.is_locked() != locked_before:
+                return "op %d %r: /save-state changed the lock of the instance from %r to %r" % (n, op, locked_before, inst.is_locked())
+            if clock() != c0:
+                return "op %d %r: /save-state moved the session clock" % (n, op)
+        elif op[0] == "bad_step":
+            # a step whose settings cannot be applied: the request ends by error; no step is delivered, so the clock must not move
+            r = client.post("/%s/run-step" % u, json={"settings": {"sm": {"base": {"constants": None}}}})
+            delivered = []
+            if r.status_code == 200:
+                try:
+                    delivered = parse_steps([json.loads(r.data)])
+                except Exception:
+                    delivered = []
+            times.extend(delivered)
+            if not locked_before and clock() != c0 + len(delivered):
+                return "op %d %r: the request returned %d step(s) (status %d) but the session clock advanced from %r to %r" % (n, op, len(delivered), r.status_code, c0, clock())
+            if not locked_before and inst.is_locked():
+                return "op %d %r: lock left set after a failing run-step" % (n, op)
+        elif op[0] == "bad_steps2":
+            r = client.post("/%s/run-steps" % u, json={"settings": {"sm": {"base": {"constants": None}}}, "numberSteps": 2})
+            delivered = []
+            if r.status_code == 200:
+                try:
+                    delivered = parse_steps(json.loads(r.data))
+                except Exception:
+                    delivered = []
+            times.extend(delivered)
+            if not locked_before and clock() != c0 + len(delivered):
+                return "op %d %r: run-steps returned %d step(s) (status %d) but the session clock advanced from %r to %r" % (n, op, len(delivered), r.status_code, c0, clock())
+            if not locked_before and inst.is_locked():
+                return "op %d %r: lock not released after a failing run-steps" % (n, op)
         elif op[0] == "step":
             r = client.post("/%s/run-step" % u, json=SET)
             if locked_before:
@@ -131,7 +173,7 @@ def gen(rnd):
     ops = []
     for _ in range(rnd.randint(1, 6)):
         ops.append(rnd.choice([('steps', 1), ('steps', 2), ('step',), ('stream_open', 1), ('stream_open', 3), ('stream_close',),
-                               ('stream_finish',), ('bad_steps',), ('stream_all',), ('steps', 3), ('step',)]))
+                               ('stream_finish',), ('bad_steps',), ('stream_all',), ('steps', 3), ('step',), ('save',), ('bad_step',), ('bad_steps2',)]))
     return ops
 
 
@@ -142,7 +184,8 @@ def main():
     n = 0
     failures = []
     fixed = [[('stream_open', 3), ('stream_close',), ('steps', 2)], [('stream_open', 2), ('steps', 1), ('step',), ('steps', 2), ('stream_finish',)],
-             [('stream_all',), ('step',)], [('bad_steps',), ('steps', 1)]]
+             [('stream_all',), ('step',)], [('bad_steps',), ('steps', 1)], [('stream_open', 2), ('save',), ('step',), ('stream_finish',)],
+             [('step',), ('bad_step',), ('step',), ('bad_steps2',), ('steps', 2)]]
     while time.time() < t_end:
         case = fixed[n] if n < len(fixed) else gen(rnd)
         n += 1
